@@ -84,7 +84,9 @@ func (wtr *XMLWtr) container(lvl int) node.Node {
 		return wtr.container(lvl + 1), nil
 	}
 	s.OnBeginEdit = func(r node.NodeRequest) error {
-		if !meta.IsLeaf(r.Selection.Meta()) && !r.Selection.InsideList && !meta.IsList(r.Selection.Meta()) {
+		if !meta.IsLeaf(r.Selection.Meta()) {
+			// the selection being written is the document's root element whether it is
+			// a container, a list or a list entry
 			if lvl == 0 && first {
 				ns := wtr.getXmlns(r.Selection.Path)
 				ident := wtr.ident(r.Selection.Path) + " xmlns=" + "\"" + ns + "\""
